@@ -166,3 +166,173 @@ Theorem one_line_string_end :
 Proof. exact LexRest.one_line_string_end. Qed.
 Print Assumptions one_line_string_end.
 
+
+(* ---- 'and hence never changes the compiled output without line markers', emitter half (ShapeEmit.v): with line markers off
+   the emitter's result is a function of the ERASURE of the program (every token of the AST with its six position fields set
+   to 0, every line field 0): emit_program_erase, emit_program_instrs_erase, print_instrs_erase; two programs of equal
+   erasure give the same text, or a label clash at tokens of the same type and literal (equal_erasures_equal_output,
+   compile_equal_erasures). equal_shapes_equal_output / leading_ / layout_between_tokens_ / trailing_layout_same_output:
+   layout does not change the compiled output, given that the parser reads token types and literals only (premise
+   parser_reads_shapes = the main theorem of ShapeParse.v, parser half). ex_markers_differ: with markers on the outputs
+   differ, so 'without line markers' is necessary. ---- *)
+From Pory Require Import Ast Emitter ShapeEmit. Open Scope list_scope.
+Theorem emit_program_erase :
+  forall (optimize : bool) (p : program), emit_program optimize None (erase_program p) = eres (fun x : text => x) (emit_program optimize None p).
+Proof. exact ShapeEmit.emit_program_erase. Qed.
+Print Assumptions emit_program_erase.
+
+Theorem emit_program_erase_ok :
+  forall (optimize : bool) (p : program) (x : text), emit_program optimize None p = Ok x <-> emit_program optimize None (erase_program p) = Ok x.
+Proof. exact ShapeEmit.emit_program_erase_ok. Qed.
+Print Assumptions emit_program_erase_ok.
+
+Theorem emit_program_erase_label :
+  forall (optimize : bool) (p : program) (tk : token) (b : bool),
+  emit_program optimize None p = ErrLabel tk b -> emit_program optimize None (erase_program p) = ErrLabel (erase_tok tk) b.
+Proof. exact ShapeEmit.emit_program_erase_label. Qed.
+Print Assumptions emit_program_erase_label.
+
+Theorem emit_program_instrs_erase :
+  forall (optimize : bool) (p : program),
+  emit_program_instrs optimize None (erase_program p) = eres erase_instrs (emit_program_instrs optimize None p).
+Proof. exact ShapeEmit.emit_program_instrs_erase. Qed.
+Print Assumptions emit_program_instrs_erase.
+
+Theorem print_instrs_erase :
+  forall (mpath : option text) (is : list instr), print_instrs mpath (erase_instrs is) = print_instrs mpath is.
+Proof. exact ShapeEmit.print_instrs_erase. Qed.
+Print Assumptions print_instrs_erase.
+
+Theorem equal_erasures_equal_output :
+  forall (optimize : bool) (p1 p2 : program),
+  erase_program p1 = erase_program p2 -> same_result (emit_program optimize None p1) (emit_program optimize None p2).
+Proof. exact ShapeEmit.equal_erasures_equal_output. Qed.
+Print Assumptions equal_erasures_equal_output.
+
+Theorem equal_erasures_equal_text :
+  forall (optimize : bool) (p1 p2 : program) (x : text),
+  erase_program p1 = erase_program p2 -> emit_program optimize None p1 = Ok x -> emit_program optimize None p2 = Ok x.
+Proof. exact ShapeEmit.equal_erasures_equal_text. Qed.
+Print Assumptions equal_erasures_equal_text.
+
+Theorem compile_equal_erasures :
+  forall (is_letter_hi is_digit_hi is_space_hi : N -> bool) (autovars : list (text * Parser.autovar)) (switches : list (text * text))
+    (env_errors : bool) (fc : Format.fontcfg) (cli_font : text) (cli_maxlen : Z) (optimize : bool) (src1 src2 : text) 
+    (p1 p2 : program),
+  Parser.parse_program autovars switches env_errors (Format.parse_format fc cli_font cli_maxlen env_errors)
+    (lex is_letter_hi is_digit_hi is_space_hi src1) = Parser.Ok p1 ->
+  Parser.parse_program autovars switches env_errors (Format.parse_format fc cli_font cli_maxlen env_errors)
+    (lex is_letter_hi is_digit_hi is_space_hi src2) = Parser.Ok p2 ->
+  erase_program p1 = erase_program p2 ->
+  same_outcome (Compile.compile is_letter_hi is_digit_hi is_space_hi autovars switches env_errors fc cli_font cli_maxlen optimize None src1)
+    (Compile.compile is_letter_hi is_digit_hi is_space_hi autovars switches env_errors fc cli_font cli_maxlen optimize None src2).
+Proof. exact ShapeEmit.compile_equal_erasures. Qed.
+Print Assumptions compile_equal_erasures.
+
+Theorem compile_equal_erasures_text :
+  forall (is_letter_hi is_digit_hi is_space_hi : N -> bool) (autovars : list (text * Parser.autovar)) (switches : list (text * text))
+    (env_errors : bool) (fc : Format.fontcfg) (cli_font : text) (cli_maxlen : Z) (optimize : bool) (src1 src2 : text) 
+    (p1 p2 : program) (out : text),
+  Parser.parse_program autovars switches env_errors (Format.parse_format fc cli_font cli_maxlen env_errors)
+    (lex is_letter_hi is_digit_hi is_space_hi src1) = Parser.Ok p1 ->
+  Parser.parse_program autovars switches env_errors (Format.parse_format fc cli_font cli_maxlen env_errors)
+    (lex is_letter_hi is_digit_hi is_space_hi src2) = Parser.Ok p2 ->
+  erase_program p1 = erase_program p2 ->
+  Compile.compile is_letter_hi is_digit_hi is_space_hi autovars switches env_errors fc cli_font cli_maxlen optimize None src1 =
+  Compile.OutText out ->
+  Compile.compile is_letter_hi is_digit_hi is_space_hi autovars switches env_errors fc cli_font cli_maxlen optimize None src2 =
+  Compile.OutText out.
+Proof. exact ShapeEmit.compile_equal_erasures_text. Qed.
+Print Assumptions compile_equal_erasures_text.
+
+Theorem compile_agree :
+  forall (is_letter_hi is_digit_hi is_space_hi : N -> bool) (autovars : list (text * Parser.autovar)) (switches : list (text * text))
+    (env_errors : bool) (fc : Format.fontcfg) (cli_font : text) (cli_maxlen : Z) (optimize : bool) (src1 src2 : text),
+  parse_agree
+    (Parser.parse_program autovars switches env_errors (Format.parse_format fc cli_font cli_maxlen env_errors)
+       (lex is_letter_hi is_digit_hi is_space_hi src1))
+    (Parser.parse_program autovars switches env_errors (Format.parse_format fc cli_font cli_maxlen env_errors)
+       (lex is_letter_hi is_digit_hi is_space_hi src2)) ->
+  agree_outcome (Compile.compile is_letter_hi is_digit_hi is_space_hi autovars switches env_errors fc cli_font cli_maxlen optimize None src1)
+    (Compile.compile is_letter_hi is_digit_hi is_space_hi autovars switches env_errors fc cli_font cli_maxlen optimize None src2).
+Proof. exact ShapeEmit.compile_agree. Qed.
+Print Assumptions compile_agree.
+
+Theorem commuting_parser_reads_shapes :
+  forall (ep : Parser.perr -> Parser.perr) (P : list token -> Parser.res program),
+  (forall e : Parser.perr, Parser.emsg (ep e) = Parser.emsg e) ->
+  (forall ts : list token, P (map erase_tok ts) = erase_pres ep (P ts)) ->
+  forall ts1 ts2 : list token, map shape ts1 = map shape ts2 -> parse_agree (P ts1) (P ts2).
+Proof. exact ShapeEmit.commuting_parser_reads_shapes. Qed.
+Print Assumptions commuting_parser_reads_shapes.
+
+Theorem equal_shapes_equal_output :
+  forall (is_letter_hi is_digit_hi is_space_hi : N -> bool) (autovars : list (text * Parser.autovar)) (switches : list (text * text))
+    (env_errors : bool) (fc : Format.fontcfg) (cli_font : text) (cli_maxlen : Z),
+  (forall ts1 ts2 : list token,
+   map shape ts1 = map shape ts2 ->
+   parse_agree (Parser.parse_program autovars switches env_errors (Format.parse_format fc cli_font cli_maxlen env_errors) ts1)
+     (Parser.parse_program autovars switches env_errors (Format.parse_format fc cli_font cli_maxlen env_errors) ts2)) ->
+  forall (optimize : bool) (src1 src2 : text),
+  map shape (lex is_letter_hi is_digit_hi is_space_hi src1) = map shape (lex is_letter_hi is_digit_hi is_space_hi src2) ->
+  agree_outcome (Compile.compile is_letter_hi is_digit_hi is_space_hi autovars switches env_errors fc cli_font cli_maxlen optimize None src1)
+    (Compile.compile is_letter_hi is_digit_hi is_space_hi autovars switches env_errors fc cli_font cli_maxlen optimize None src2).
+Proof. exact ShapeEmit.equal_shapes_equal_output. Qed.
+Print Assumptions equal_shapes_equal_output.
+
+Theorem leading_layout_same_output :
+  forall (is_letter_hi is_digit_hi is_space_hi : N -> bool) (autovars : list (text * Parser.autovar)) (switches : list (text * text))
+    (env_errors : bool) (fc : Format.fontcfg) (cli_font : text) (cli_maxlen : Z),
+  (forall ts1 ts2 : list token,
+   map shape ts1 = map shape ts2 ->
+   parse_agree (Parser.parse_program autovars switches env_errors (Format.parse_format fc cli_font cli_maxlen env_errors) ts1)
+     (Parser.parse_program autovars switches env_errors (Format.parse_format fc cli_font cli_maxlen env_errors) ts2)) ->
+  forall (optimize : bool) (g s : list N),
+  gap g ->
+  agree_outcome
+    (Compile.compile is_letter_hi is_digit_hi is_space_hi autovars switches env_errors fc cli_font cli_maxlen optimize None (g ++ s))
+    (Compile.compile is_letter_hi is_digit_hi is_space_hi autovars switches env_errors fc cli_font cli_maxlen optimize None s).
+Proof. exact ShapeEmit.leading_layout_same_output. Qed.
+Print Assumptions leading_layout_same_output.
+
+Theorem layout_between_tokens_same_output :
+  forall (is_letter_hi is_digit_hi is_space_hi : N -> bool) (autovars : list (text * Parser.autovar)) (switches : list (text * text))
+    (env_errors : bool) (fc : Format.fontcfg) (cli_font : text) (cli_maxlen : Z),
+  (forall ts1 ts2 : list token,
+   map shape ts1 = map shape ts2 ->
+   parse_agree (Parser.parse_program autovars switches env_errors (Format.parse_format fc cli_font cli_maxlen env_errors) ts1)
+     (Parser.parse_program autovars switches env_errors (Format.parse_format fc cli_font cli_maxlen env_errors) ts2)) ->
+  forall (optimize : bool) (p r g : list N) (k : nat),
+  r <> [] ->
+  gap g ->
+  ~ fuses p g ->
+  reaches is_letter_hi is_digit_hi is_space_hi r k (init (p ++ r)) ->
+  agree_outcome
+    (Compile.compile is_letter_hi is_digit_hi is_space_hi autovars switches env_errors fc cli_font cli_maxlen optimize None (p ++ g ++ r))
+    (Compile.compile is_letter_hi is_digit_hi is_space_hi autovars switches env_errors fc cli_font cli_maxlen optimize None (p ++ r)).
+Proof. exact ShapeEmit.layout_between_tokens_same_output. Qed.
+Print Assumptions layout_between_tokens_same_output.
+
+Theorem trailing_layout_same_output :
+  forall (is_letter_hi is_digit_hi is_space_hi : N -> bool) (autovars : list (text * Parser.autovar)) (switches : list (text * text))
+    (env_errors : bool) (fc : Format.fontcfg) (cli_font : text) (cli_maxlen : Z),
+  (forall ts1 ts2 : list token,
+   map shape ts1 = map shape ts2 ->
+   parse_agree (Parser.parse_program autovars switches env_errors (Format.parse_format fc cli_font cli_maxlen env_errors) ts1)
+     (Parser.parse_program autovars switches env_errors (Format.parse_format fc cli_font cli_maxlen env_errors) ts2)) ->
+  forall (optimize : bool) (p r g : list N) (k : nat),
+  r <> [] ->
+  reaches is_letter_hi is_digit_hi is_space_hi r k (init (p ++ r)) ->
+  tgap g ->
+  ~ fuses p g ->
+  agree_outcome
+    (Compile.compile is_letter_hi is_digit_hi is_space_hi autovars switches env_errors fc cli_font cli_maxlen optimize None (p ++ g))
+    (Compile.compile is_letter_hi is_digit_hi is_space_hi autovars switches env_errors fc cli_font cli_maxlen optimize None p).
+Proof. exact ShapeEmit.trailing_layout_same_output. Qed.
+Print Assumptions trailing_layout_same_output.
+
+Theorem erase_program_idem :
+  forall p : program, erase_program (erase_program p) = erase_program p.
+Proof. exact ShapeEmit.erase_program_idem. Qed.
+Print Assumptions erase_program_idem.
+
